@@ -31,7 +31,7 @@ def units(bins, tier, seed):
     us = []
     nproc, n = (10, 500) if tier == "quick" else (14, 12000)
     for i in range(nproc):
-        us.append(Unit("c01_frontends.rc%d" % i, [b], env={"RC_PARAMS": rc_params(seed * 1000 + i, n, 100)}, group="random", timeout=7200))
+        us.append(Unit("c01_frontends.rc%d" % i, [b], env={"RC_PARAMS": rc_params(seed * 1000 + i, n, 100), "VERIF_REGRESS": 1 if i == 0 else 0}, group="random", timeout=7200))
     ne = 4 if tier == "quick" else 2
     for i in range(ne):
         us.append(Unit("c01_frontends.enum%d" % i, [b], env={"C01_ENUM": 3 if tier == "quick" else 60, "VERIF_SEED": seed * 100 + i}, group="enum", timeout=7200))
@@ -53,7 +53,8 @@ MUTATIONS = [
     dict(name="http-readahead-off-by-one", edits=[("src/http_api.cpp", "memcpy(p,&input_body_[input_body_ptr_],s);", "memcpy(p,&input_body_[input_body_ptr_ + (input_body_ptr_ ? 0 : 0)],s); if(s>1 && input_body_.size()-input_body_ptr_ > s) ((char*)p)[s-1]=input_body_[input_body_ptr_+s];")]),
     dict(name="fcgi-padding-not-stripped", edits=[("src/fastcgi_api.cpp", "body_.resize(body_.size() - header_.padding_length);\n\t\t\th(booster::system::error_code());", "if(header_.padding_length < 200) body_.resize(body_.size() - header_.padding_length);\n\t\t\th(booster::system::error_code());")]),
     dict(name="scgi-sep-off-by-one", edits=[("src/scgi_api.cpp", "char const *p=&buffer_[sep_ + 1];", "char const *p=&buffer_[sep_ + 1]; if(buffer_.size() > 900) p++;")]),
-    dict(name="parser-drop-ungetc", edits=[("private/http_parser.h", "\t\t\t\tungetc(c);\n\t\t\t\theader_.resize(header_.size()-2);", "\t\t\t\tif(*body_ptr_ > 0) ungetc(c);\n\t\t\t\theader_.resize(header_.size()-2);")]),
+    # the pushed-back character is lost when it was the first byte of a freshly read buffer (read boundary right after CRLF)
+    dict(name="parser-drop-ungetc", edits=[("private/http_parser.h", "\t\t\t\tungetc(c);\n\t\t\t\theader_.resize(header_.size()-2);", "\t\t\t\tif(*body_ptr_ != 1) ungetc(c);\n\t\t\t\theader_.resize(header_.size()-2);")]),
     dict(name="http-plus-in-path-regression", edits=[("src/http_api.cpp", "env_path_info_ = pool_.add(decode_path(path,path+strlen(path)));", "env_path_info_ = pool_.add(util::urldecode(path,path+strlen(path)));")]),
     dict(name="http-paren-in-request-line-regression", edits=[("src/http_api.cpp", "\t\t\tinput_parser_.quoting(false);\n", "")]),
     dict(name="fcgi-get-values-fallthrough-regression", edits=[("src/fastcgi_api.cpp", "\t\t\t\t\t\t\t\th));\n\t\t\t\treturn;\n\t\t\t}\n\t\t\telse if(header_.type!=fcgi_begin_request)", "\t\t\t\t\t\t\t\th));\n\t\t\t}\n\t\t\telse if(header_.type!=fcgi_begin_request)")]),
